@@ -54,6 +54,10 @@ struct Sys {
     violations: Vec<String>,
     fin_consumed_seen: [bool; 2],
     reached_closed: bool,
+    /// C17 window oracle, per receiving side: circular maximum of the sequence numbers of the peer's processed
+    /// ACK segments, and the window that a conforming endpoint must be using (None = not determined)
+    peer_seq_max: [Option<u32>; 2],
+    adv_wnd: [Option<u16>; 2],
     in_tail: bool,
     expired_before_tail: bool,
 }
@@ -220,6 +224,8 @@ impl Sys {
             violations: vec![],
             fin_consumed_seen: [false; 2],
             reached_closed: false,
+            peer_seq_max: [None, None],
+            adv_wnd: [None, None],
             in_tail: false,
             expired_before_tail: false,
         }
@@ -332,6 +338,42 @@ impl Sys {
                 }
             }
         }
+        // C17: which window did the peer last advertise, independently of the implementation's bookkeeping?
+        // A segment that is processed at once (nothing queued, not ahead of RCV.NXT), is acceptable, carries ACK and
+        // acknowledges new data must update SND.WND whenever its sequence number is not older than any seen before
+        // (RFC 9293 3.10.7.4: SND.WL1 < SEG.SEQ, or equal with SND.WL2 <= SEG.ACK).
+        if let (Some(bs), End::Live(_)) = (&before_snap, &self.end[r]) {
+            let h = &seg_copy.header;
+            let synchronised = !matches!(bs.state, State::SynSent | State::SynReceived);
+            let immediate = bs.in_segments.is_empty() && h.seq.wrapping_sub(bs.rcv_nxt) >= (1 << 31) || h.seq == bs.rcv_nxt;
+            let in_window = h.seq.wrapping_sub(bs.rcv_nxt.wrapping_sub(1)) <= bs.rcv_wnd as u32;
+            let acks_new = h.ack.wrapping_sub(bs.snd_una) >= 1 && h.ack.wrapping_sub(bs.snd_una) <= bs.snd_nxt.wrapping_sub(bs.snd_una);
+            if synchronised && h.ctl.ack() && !h.ctl.rst() && !h.ctl.syn() {
+                if immediate && bs.in_segments.is_empty() && in_window && acks_new {
+                    // SND.WL1 is the sequence number of some segment processed earlier, hence <= RCV.NXT: a segment
+                    // exactly at RCV.NXT is never older; one behind RCV.NXT only if it is not older than the newest
+                    // sequence number this oracle has seen
+                    let newer = h.seq == bs.rcv_nxt
+                        || match self.peer_seq_max[r] {
+                            None => false,
+                            Some(m) => h.seq.wrapping_sub(m) < (1 << 31),
+                        };
+                    if newer {
+                        self.peer_seq_max[r] = Some(h.seq);
+                        self.adv_wnd[r] = Some(h.wnd);
+                        stat("c17_window_oracle_updates");
+                    } else {
+                        self.adv_wnd[r] = None;
+                    }
+                } else if h.wnd != bs.snd_wnd {
+                    // may or may not update the window: not determined by this oracle
+                    self.adv_wnd[r] = None;
+                }
+            } else if !synchronised {
+                self.adv_wnd[r] = None;
+                self.peer_seq_max[r] = None;
+            }
+        }
         if let (Some(bs), End::Dead) = (&before_snap, &self.end[r]) {
             let h = &seg_copy.header;
             if bs.state == State::SynSent && !h.ctl.syn() && !h.ctl.rst() && !h.ctl.ack() {
@@ -425,6 +467,16 @@ impl Sys {
                 if len > 0 {
                     let is_new = g.header.seq.wrapping_sub(before.snd_nxt) < (1 << 31);
                     if is_new {
+                        if let Some(w) = self.adv_wnd[s] {
+                            let r2 = g.header.seq.wrapping_add(len).wrapping_sub(after.snd_una);
+                            stat("c17_window_oracle_checked");
+                            if r2 > w as u32 {
+                                self.violations.push(format!(
+                                    "C17 new data {} ends {} past SND.UNA although the peer last advertised a window of {}",
+                                    seg_str(g), r2, w
+                                ));
+                            }
+                        }
                         let right = g.header.seq.wrapping_add(len).wrapping_sub(after.snd_una);
                         if right > after.snd_wnd as u32 {
                             self.violations.push(format!(
@@ -814,7 +866,13 @@ fn gen_mtu(rng: &mut Rng) -> u16 {
 fn gen_case(rng: &mut Rng, idx: usize) -> String {
     let hostile = if flag("--hostile") { true } else if flag("--conformant") || flag("--shift") { false } else { idx % 3 == 2 };
     let mode = if rng.coin(1, 5) { 1 } else { 0 };
-    let iss = [gen_iss(rng), gen_iss(rng)];
+    let mut iss = [gen_iss(rng), gen_iss(rng)];
+    if hostile && rng.coin(1, 3) {
+        // sequence numbers that wrap after a few hundred bytes: bookkeeping that compares them as plain
+        // integers (window update, retransmission queue) goes wrong only after the wrap
+        let k = rng.below(2) as usize;
+        iss[k] = 0u32.wrapping_sub(rng.below(3000) as u32 + 2);
+    }
     let mtu = [gen_mtu(rng), gen_mtu(rng)];
     let mut sys = Sys::new(mode, iss, mtu);
     let mut labels: Vec<String> = vec![];
@@ -885,6 +943,22 @@ fn gen_case(rng: &mut Rng, idx: usize) -> String {
                 }
                 _ => (rng.u32(), 65535, rng.u32(), rng.u32()),
             };
+            if rng.coin(1, 5) {
+                // a legitimate-looking ACK of new data that changes the advertised window (often shrinking it)
+                let a = if rng.coin(2, 3) { nxt } else { una.wrapping_add(1) };
+                let w = *rng.pick(&[0u64, 1, 10, 100, 1000, 3000, 30000, 65535]);
+                let l = format!("I {} {} {} 16 {} 0", d, rn, a, w);
+                alive = push(&mut sys, &mut labels, l);
+                if alive && rng.coin(1, 2) {
+                    // and give the receiver of the ACK something to send
+                    let l2 = format!("S {} {}", rcv, *rng.pick(&[100u64, 1000, 3000, 5000]));
+                    alive = push(&mut sys, &mut labels, l2);
+                    if alive {
+                        alive = push(&mut sys, &mut labels, format!("E {}", rcv));
+                    }
+                }
+                continue;
+            }
             let seq = match rng.below(10) {
                 0 => rn,
                 1 => rn.wrapping_sub(1),
